@@ -14,6 +14,7 @@ mod dom_print;
 mod dom_body;
 mod dom_serve;
 mod dom_epoll;
+mod dom_mem;
 mod interpose;
 
 /// Counting allocator: live blocks of exactly 64 bytes with 64-byte alignment = live epoll `Handle` records
@@ -87,6 +88,7 @@ fn main() {
             "BODY" => dom_body::body(rest),
             "SERVE" => dom_serve::serve(rest),
             "EPOLL" => dom_epoll::epoll(rest),
+            "MEM" => dom_mem::mem(rest),
             _ => "BAD-DOMAIN".to_string(),
         };
         let _ = writeln!(out, "{}", ans);
